@@ -497,8 +497,23 @@ func sortedDependencies(node cypher.SyntaxNode) []string {
 	}
 
 	_ = walk.Cypher(node, walk.NewSimpleVisitor[cypher.SyntaxNode](func(node cypher.SyntaxNode, _ walk.VisitorHandler) {
-		if variable, isVariable := node.(*cypher.Variable); isVariable && variable.Symbol != "" && variable.Symbol != cypher.TokenLiteralAsterisk {
-			dependencies[variable.Symbol] = struct{}{}
+		switch typedNode := node.(type) {
+		case *cypher.Variable:
+			if typedNode.Symbol != "" && typedNode.Symbol != cypher.TokenLiteralAsterisk {
+				dependencies[typedNode.Symbol] = struct{}{}
+			}
+
+		// The semantic walk does not descend into pattern variables. Inside an expression a pattern can only be a
+		// pattern predicate, and the variables it names are references to bindings of the enclosing query
+		case *cypher.NodePattern:
+			if typedNode.Variable != nil && typedNode.Variable.Symbol != "" {
+				dependencies[typedNode.Variable.Symbol] = struct{}{}
+			}
+
+		case *cypher.RelationshipPattern:
+			if typedNode.Variable != nil && typedNode.Variable.Symbol != "" {
+				dependencies[typedNode.Variable.Symbol] = struct{}{}
+			}
 		}
 	}))
 
